@@ -4,8 +4,9 @@
             class invariant (start, end in [-2pi, 2pi], 0 <= end - start < 2pi): every assert is
             proved, every compared quantity is non-negative (an offset modulo 2pi, not a value
             wrapped to [-pi, pi]) and the bound it is compared with can reach up to 2pi
-  DISPATCH  number / interval dispatch accepts int and float alike
-  CLOSED    Interval.contains / overlaps use non-strict comparisons on the right operands;
+  DISPATCH  contains() of both classes evaluated for an int, a float and an interval argument: each reaches the
+            branch of its kind (shared with C08 Q2)
+  CLOSED    Interval.contains / `in` / overlaps evaluated on order cases of the end points (closed-interval tests);
             intersection is [max(starts), min(ends)] under the overlap test
   IMAGE     * and / swap the ends exactly in the non-positive branch; + - round keep the order;
             every arithmetic result is constructed through the (re-checking) constructor
